@@ -3,6 +3,7 @@ import Fabio.Driver.RouteJson
 import Fabio.Model.Route
 import Fabio.Model.C03
 import Fabio.Model.C03Spec
+import Fabio.Driver.C03Fold
 namespace Fabio.Driver.C03
 open Lean Fabio Fabio.Driver Fabio.Driver.RouteJson Fabio.Model.Route Fabio.Model.C03 Fabio.Model.C03Spec
 
@@ -252,5 +253,6 @@ def globH : Handler := fun inp impl => do
             tag := if globFrag p s then "match" else if gobwasQuirk p s then "gobwas-quirk-match" else "nomatch" } : Verdict).toJson
 
 def streams : List (String × Handler) :=
-  [("c03.lookup", lookupH), ("c03.lookuphost", lookupHostH), ("c03.reverse", reverseH), ("c03.glob", globH)]
+  [("c03.lookup", lookupH), ("c03.lookuphost", lookupHostH), ("c03.reverse", reverseH), ("c03.glob", globH),
+   ("c03.ipath", Fabio.Driver.C03Fold.ipathH)]
 end Fabio.Driver.C03
